@@ -47,6 +47,7 @@ class UnitSpec:
         self.rule_args = {}
         self.vacuity = True
         self.includes = []
+        self.watches = []
 
 
 TAG_RE = re.compile(r'^\[([^\]|]*)\|\s*([^\]]+)\]\s*(.*)$', re.S)
@@ -167,6 +168,11 @@ def parse(path):
                 else:
                     u.items.append(('raw', text, lineno, None, u.name))
                 continue
+            elif word == 'watch':
+                # watch <props...> | <item path>: a function outside the verifier's reach; only its source hash is monitored, a change
+                # makes the properties undecided and hands the decision to the bounded oracle
+                tags, _, pe = rest.partition('|')
+                u.watches.append((cur_source, pe.strip(), tags.split(), lineno))
             elif word == 'item':
                 pe = rest
                 as_header = None
